@@ -109,9 +109,10 @@ def hello(version, suites, exts):
     return ref.client_hello(version, 1577836800, bytes(range(28)), b'', suites, [0], exts)
 
 
-SUITE_POOL = (0x002f, 0x1301, 0xeeee, 0x0a0a, 0x00ff, 0x5600)
-EXT_POOL = ('server_name', 'supported_groups', 'ec_point_formats', 'session_ticket', 'padding', 'unassigned', 'grease')
-GROUP_POOL = (29, 23, 0xeeee, 0x1a1a)
+SUITE_POOL = (0x002f, 0x1301, 0xeeee, 0x0a0a, 0x00ff, 0x5600, 0x3a4a)   # 0x3a4a: GREASE look-alike (0x?a?a, bytes differ)
+EXT_POOL = ('server_name', 'supported_groups', 'ec_point_formats', 'session_ticket', 'padding', 'unassigned', 'grease',
+            'lookalike')
+GROUP_POOL = (29, 23, 0xeeee, 0x1a1a, 0x1a2a)
 PF_POOL = (0, 1, 0xee, 0x0b)
 
 
@@ -128,6 +129,8 @@ def ext_of(name, groups, pfs):
         return (21, b'\x00\x00')
     if name == 'unassigned':
         return (0xeeee, b'x')
+    if name == 'lookalike':
+        return (0x4a5a, b'')
     return (0x2a2a, b'')
 
 
@@ -216,7 +219,7 @@ def run(ctx):
                         'one-byte values are never GREASE for JA3',
                         'known findings are matched by deviation: a mismatch is covered only when the library string equals '
                         'the reference recomputed under exactly the listed deviations whose trigger is present']
-    return ctx.finish(rule='client hello wire forms: 6 versions; every suite list of length 1-3 over {2 known, unassigned, '
+    return ctx.finish(rule='client hello wire forms: 6 versions; every suite list of length 1-3 over {2 known, unassigned, GREASE look-alike, '
                            'GREASE, 00ff, 5600}; every extension list of length 0-3 (and absent) over 7 extension kinds '
                            'with duplicates; group lists of length 1-2 over 4 codes; point-format lists of length 1-2 over '
                            '4 codes; every combination of two deviating sections%s'
